@@ -1416,11 +1416,32 @@ func variadicNotCappedRule(w *World, r *Report, rule string, lispNames ...string
 		}
 		for _, c := range staticCallsTo(fn, callB) {
 			name, ok := constString(c.Call.Args[1])
+			var bounds []ssa.Value
+			if !ok {
+				// the registration written as a table walked by a loop: the row that carries the name
+				last := c.Call.Args[len(c.Call.Args)-1]
+				rows := tableRows(c.Call.Args[1], last)
+				withBounds := rows != nil
+				if rows == nil {
+					rows = tableRows(c.Call.Args[1])
+				}
+				for _, row := range rows {
+					if s, isS := constString(row[0]); isS && want[s] {
+						name, ok = s, true
+						if withBounds && len(row) > 1 && row[1] != nil {
+							bounds = sliceLiteralElems(row[1])
+						} else if !withBounds {
+							bounds = sliceLiteralElems(last)
+						}
+					}
+				}
+			} else {
+				bounds = sliceLiteralElems(c.Call.Args[len(c.Call.Args)-1])
+			}
 			if !ok || !want[name] {
 				continue
 			}
 			n++
-			bounds := sliceLiteralElems(c.Call.Args[len(c.Call.Args)-1])
 			okB := true
 			detail := "no bounds declared"
 			if len(bounds) >= 2 {
